@@ -20,8 +20,9 @@ ASSUMPTIONS = [
 LEVEL = "other"
 NOT_COVERED = ["losslessness of the zlib / bz2 / snappy / brotli codecs (third-party; assumed)",
                "_parseExtensionsHeader and the extension handling inside the opening handshake (C07)",
-               "RSV1 on receive with a negotiated extension (processData header unit is proved for the no-extension "
-               "configuration under C02)", "bzip2 / snappy / brotli negotiation classes (same structure, not built)"]
+               "decompression inside the frame hooks (onFrameBegin / onFrameData) with a negotiated extension; the header "
+               "decision on RSV bits with an extension is part of the C02 header unit", "streaming send with compression",
+               "bzip2 / snappy / brotli negotiation classes (same structure, not built)"]
 CD = "autobahn.websocket.compress_deflate"
 PARAMS = ("odict:client_max_window_bits=@vals,client_no_context_takeover=@vals,server_max_window_bits=@vals,"
           "server_no_context_takeover=@vals,x_unknown=@vals")
